@@ -106,7 +106,9 @@ func (m *Internal) NodeDump(args *structs.DCSpecificRequest,
 				maxIndex = index
 			}
 
-			// get node dumps for all peerings
+			// get node dumps for all peerings (the function re-runs on the same reply when a
+			// blocking query wakes up: start from an empty list every time)
+			reply.ImportedDump = nil
 			for _, p := range listedPeerings {
 				index, importedDump, err := state.NodeDump(ws, &args.EnterpriseMeta, p.Name)
 				if err != nil {
@@ -216,6 +218,7 @@ func (m *Internal) ServiceDump(args *structs.ServiceDumpRequest, reply *structs.
 						maxIndex = index
 					}
 
+					reply.ImportedNodes = nil // the function re-runs on the same reply
 					for _, p := range listedPeerings {
 						// Note we fetch imported services with wildcard namespace because imported services' namespaces
 						// are in a different locality; regardless of our local namespace, we return all imported services
